@@ -5,6 +5,8 @@ import (
 	"encoding/json"
 	"fmt"
 	"io"
+	"log"
+	"os"
 	"strings"
 	"sync"
 	"time"
@@ -50,7 +52,12 @@ func Run(ctx *core.Ctx) {
 		"response-header rules; plus event-stream / chunked delivery cases where the origin stalls after each event; plus sequences of 2-4 streamed " +
 		"(event stream chunked / with Content-Length / close-delimited, chunked, close-delimited unknown length) and non-streamed (Content-Length, 204, HEAD) " +
 		"responses on ONE keep-alive connection in every order of kinds, the origin stalling after the head and after every piece (pieces ending in / " +
-		"starting with half a flush pattern, also across responses), client byte counts at each stall compared with Flush.Conn.replies; non-trivial = anything but a plain 200 with " +
+		"starting with half a flush pattern, also across responses), client byte counts at each stall compared with Flush.Conn.replies; plus connections with " +
+		"LOCALLY ANSWERED exchanges (407 no/wrong proxy credentials, 403 deny-domains / localhost denial, 451 outside the time frame, 400+close Via loop; direct and MITM) " +
+		"whose requests carry bodies (Content-Length ≤4 KiB / >4 KiB / >64 KiB, chunked with and without trailers, Expect: 100-continue, bodies that read like complete " +
+		"HTTP requests, body with the head / after the proxy's answer / never completed), mixed with forwarded requests (also answered by an origin that puts stray body " +
+		"bytes after a HEAD/204/304 head, or announces close), step by step or pipelined in one write: response k answers request k, the origin sees exactly the forwarded " +
+		"requests, close exactly when announced, compared with ReqConn.serve on the bytes the client sent; non-trivial = anything but a plain 200 with " +
 		"Content-Length; distinct = distinct (configuration, exchange)")
 	pool := &envPool{envs: map[envKey]*env{}, ctx: ctx}
 	defer pool.closeAll()
@@ -135,6 +142,34 @@ func Run(ctx *core.Ctx) {
 	close(seqjobs)
 	wg.Wait()
 
+	// connections with locally answered exchanges (request bodies of refused requests, pipelining)
+	lpool := &lenvPool{envs: map[string]*lenv{}, ctx: ctx}
+	defer lpool.closeAll()
+	// (net/http's transport reports the origin's stray bytes on the process-wide standard logger)
+	log.SetOutput(io.Discard)
+	defer log.SetOutput(os.Stderr)
+	ljobs := make(chan *localCase, 16)
+	for w := 0; w < 10; w++ {
+		wg.Add(1)
+		go func() {
+			defer wg.Done()
+			for lc := range ljobs {
+				runLocal(ctx, lpool, lc)
+			}
+		}()
+	}
+	for i, lc := range localMatrix(ctx.Rng.Sub()) {
+		if i == 5 {
+			ctx.Sample(lc)
+		}
+		ljobs <- lc
+	}
+	for i, n := 0, ctx.N(150, 4000); i < n; i++ {
+		ljobs <- genLocal(ctx.Rng.Sub())
+	}
+	close(ljobs)
+	wg.Wait()
+
 	// torn bodies
 	for _, f := range []string{"garbage-chunk", "corrupt-gzip", "short-cl"} {
 		for _, size := range []int{10, 3000, 40000}[:ctx.N(2, 3)] {
@@ -159,6 +194,13 @@ func replayWith(ctx *core.Ctx, pool *envPool, raw json.RawMessage) {
 		var sc seqCase
 		json.Unmarshal(raw, &sc)
 		runSeq(ctx, &sc)
+		return
+	case "local":
+		var lc localCase
+		json.Unmarshal(raw, &lc)
+		lpool := &lenvPool{envs: map[string]*lenv{}, ctx: ctx}
+		defer lpool.closeAll()
+		runLocal(ctx, lpool, &lc)
 		return
 	case "torn":
 		var tc tornCase
